@@ -931,9 +931,10 @@ class mulgrid(object):
     uppercase_names = property(get_uppercase_names)
 
     def get_right_justified_names(self):
-        """Returns True if character part of block names are right-justified."""
-        return all([(blkname[0:3] == blkname[0:3].rjust(3)) for
-                    blkname in self.block_name_list])
+        """Returns True if column and layer names are right-justified."""
+        names = [col.name for col in self.columnlist] + \
+                [lay.name for lay in self.layerlist]
+        return all([name == name.strip().rjust(len(name)) for name in names])
     right_justified_names = property(get_right_justified_names)
 
     def new_node_name(self, istart = 0, justfn = str.rjust, chars = ascii_lowercase,
